@@ -492,9 +492,22 @@ class Blockwise(Expr):
         # We either have to create a new Align layer (ok) or combine divisions
         # and graph into a single operation.
         dependencies = self.dependencies()
-        for arg in dependencies:
-            if not self._broadcast_dep(arg):
-                assert arg.divisions == dependencies[0].divisions
+        args = [arg for arg in dependencies if not self._broadcast_dep(arg)]
+        if any(arg.divisions != args[0].divisions for arg in args) and all(
+            arg.npartitions == 1 for arg in args
+        ):
+            # Single-partition operands need no re-division: pandas aligns
+            # them inside the one task and the output spans all their indexes
+            # (same rule as ``MaybeAlignPartitions._divisions``, which lowers
+            # to this expression in that case)
+            divs = [div for arg in args for div in arg.divisions]
+            try:
+                return min(divs), max(divs)
+            except TypeError:
+                # either unknown divisions or int-str mix
+                return None, None
+        for arg in args:
+            assert arg.divisions == dependencies[0].divisions
         return dependencies[0].divisions
 
     @functools.cached_property
